@@ -109,7 +109,7 @@ fn gen_decision_op(cx: &mut Cx, _k: u64, h: &Arc<Honest>) -> Op {
     let mut blind = h.blind.clone();
     let which = cx.ch.choose("verifier", 5);
     // one mutation (or none)
-    let mutation = cx.ch.choose("mutation", 12);
+    let mutation = cx.ch.choose("mutation", 14);
     let mut mlabel = "honest".to_string();
     {
         let target: &mut Bytes = match which { 0 => &mut sig, 1 => &mut proof, 2 => &mut cwp, 3 => &mut bsig, _ => &mut bproof };
@@ -125,7 +125,27 @@ fn gen_decision_op(cx: &mut Cx, _k: u64, h: &Arc<Honest>) -> Op {
             8 => { if !committed.is_empty() { let lf = ListFault::random(&mut cx.ch, committed.len()); lf.apply(&mut committed, seed); mlabel = format!("committed-{}", lf.kind()); } if !dcm.is_empty() { dcm[0].push(7); } }
             9 => { s = s0.other(); mlabel = "other-suite".into(); }
             10 => { let bit = cx.ch.choose("pkbit", 768) as usize; flip(&mut pk, bit); mlabel = format!("pk-bitflip@{bit}"); }
-            _ => { l = l + 1; if let Some(b) = blind.last_mut() { *b ^= 1; } mlabel = "L+1 / blind-factor altered".into(); }
+            11 => { l = l + 1; if let Some(b) = blind.last_mut() { *b ^= 1; } mlabel = "L+1 / blind-factor altered".into(); }
+            _ => {
+                // one scalar slot re-encoded as x + r (same residue, non-canonical octets) or set to r
+                const R_BE: [u8; 32] = [0x73, 0xed, 0xa7, 0x53, 0x29, 0x9d, 0x7d, 0x48, 0x33, 0x39, 0xd8, 0x08, 0x09, 0xa1, 0xd8, 0x05, 0x53, 0xbd, 0xa4, 0x02, 0xff, 0xfe, 0x5b, 0xfe, 0xff, 0xff, 0xff, 0xff, 0x00, 0x00, 0x00, 0x01];
+                let first = match which { 0 | 3 => 48, 1 | 4 => 144, _ => 48 };
+                let nslots = (target.len() - first) / 32;
+                if nslots > 0 {
+                    let k = cx.ch.choose("scalar_slot", nslots as u64) as usize;
+                    let off = first + 32 * k;
+                    if mutation == 12 {
+                        let mut carry = 0u16;
+                        for i in (0..32).rev() { let v = target[off + i] as u16 + R_BE[i] as u16 + carry; target[off + i] = v as u8; carry = v >> 8; }
+                        mlabel = format!("scalar+r@{off}");
+                    } else { target[off..off + 32].copy_from_slice(&R_BE); mlabel = format!("scalar=r@{off}"); }
+                }
+                if which == 3 && mutation == 12 {
+                    // also the blind factor as x + r
+                    let mut carry = 0u16;
+                    for i in (0..32).rev() { let v = blind[i] as u16 + R_BE[i] as u16 + carry; blind[i] = v as u8; carry = v >> 8; }
+                }
+            }
         }
     }
     let name = ["verify", "proof_verify", "blind_sign(request)", "verify_blind_sign", "blind_proof_verify"][which as usize];
